@@ -728,6 +728,11 @@ def check_C16(run: Run):
                 if not okk and (W.os_circuit(d) == c1): run.violation("circuits differing in one statement compare equal", {"c": c, "d": d})
             d = copy.deepcopy(c); d["stmts"] = d["stmts"][:-1]
             if W.os_circuit(d) == c1: run.violation("circuits of different length compare equal", {"c": c})
+        # the same statements on registers of another size are another circuit (one more qubit / one more bit)
+        for dq, db in ((1, 0), (0, 1), (2, 3)):
+            d = copy.deepcopy(c); d["nq"] += dq; d["nb"] += db
+            c3 = W.os_circuit(d)
+            if (c3 == c1) or (c1 == c3): run.violation(f"circuits on registers of different size compare equal (+{dq} qubits, +{db} bits)", {"c": c})
 
 # ----------------------------------------------------------------------------------------- C18
 def check_C18(run: Run):
